@@ -98,6 +98,7 @@ type JSOpts struct {
 	NoClassSelf      bool // class expressions never reference their own name (recorded known finding)
 	NoModuleItems    bool // no import/export
 	MaxStmts         int
+	YieldName        bool // with CtxNames: `yield` is used as a variable name where the grammar allows it (no module items: module code is strict)
 	CtxNames         bool // contextual keywords (async, of, get, set, as, from) are used as variable names too
 	ParamDefaultRefs bool // parameter defaults mention variables of the scopes outside the function
 	Budget           int  // expression/statement budget (0 = random 20..140)
@@ -122,6 +123,8 @@ type jsGen struct {
 	scope         *jsScope
 	inFunc        int
 	inGen         bool
+	noYield       int    // >0: `yield` cannot be an identifier here (strict code: class bodies, functions with a "use strict" directive; parameters of generators and of arrows inside generators)
+	funcName      string // name just declared for the function about to be generated (a function named yield has no directive)
 	inAsync       bool
 	inLoop        int
 	inSwitch      int
@@ -147,6 +150,9 @@ var jsNamePool = []string{"a", "b", "c", "x", "y"}
 var jsCtxNames = []string{"async", "of", "get", "set", "as", "from"}
 
 func (g *jsGen) pickName() string {
+	if g.o.CtxNames && g.o.YieldName && !g.inGen && g.noYield == 0 && g.r.Intn(10) == 0 {
+		return "yield" // an ordinary identifier outside generators and strict code
+	}
 	if g.o.CtxNames && g.r.Intn(4) == 0 {
 		return Pick(g.r, jsCtxNames)
 	}
@@ -443,6 +449,14 @@ func (g *jsGen) function(kind string, async, generator bool, exprBody bool) (par
 		g.scope.lexical[g.reserved], g.scope.vars[g.reserved] = true, true
 		g.reserved = ""
 	}
+	fname := g.funcName
+	g.funcName = ""
+	// a "use strict" directive makes the whole function strict, its name and parameters included: decided first
+	strict := !exprBody && fname != "yield" && r.Intn(10) == 0
+	paramNoYield := strict || generator || kind == "arrow" && saveGen
+	if paramNoYield {
+		g.noYield++
+	}
 	params = &JSNode{K: "params"}
 	np := r.Intn(4)
 	g.noRefs++
@@ -488,6 +502,9 @@ func (g *jsGen) function(kind string, async, generator bool, exprBody bool) (par
 			}
 		}
 	}
+	if paramNoYield && !strict {
+		g.noYield--
+	}
 	g.inGen, g.inAsync = generator, async
 	simple := true
 	for _, p := range params.Kids {
@@ -499,7 +516,7 @@ func (g *jsGen) function(kind string, async, generator bool, exprBody bool) (par
 		body = g.expr(2, pAssign)
 	} else {
 		body = &JSNode{K: "body"}
-		if simple && r.Intn(10) == 0 {
+		if simple && strict {
 			body.Kids = append(body.Kids, &JSNode{K: "directive", S: `"use strict"`})
 		}
 		// Names the defaults mention (C04 domain, known finding param-default-use-vs-body-declaration): the body declares
@@ -521,6 +538,9 @@ func (g *jsGen) function(kind string, async, generator bool, exprBody bool) (par
 			body.Kids = append(body.Kids, &JSNode{K: "return", Kids: []*JSNode{g.expr(2, pComma)}})
 		}
 	}
+	if strict {
+		g.noYield--
+	}
 	g.pop()
 	g.inFunc--
 	g.inGen, g.inAsync, g.inLoop, g.inSwitch, g.labels = saveGen, saveAsync, saveLoop, saveSwitch, saveLabels
@@ -540,7 +560,14 @@ func (g *jsGen) funcExpr() *JSNode {
 	named := r.Intn(2) == 0
 	if named {
 		g.push("fname")
+		if generator {
+			g.noYield++
+		}
 		n.Kids = append(n.Kids, g.declare("fname"))
+		if generator {
+			g.noYield--
+		}
+		g.funcName = n.Kids[0].S
 	} else {
 		n.Kids = append(n.Kids, nil)
 	}
@@ -583,6 +610,8 @@ func (g *jsGen) class(isExpr bool) *JSNode {
 	if isExpr {
 		n.set("expr")
 	}
+	g.noYield++ // class code is strict: name, heritage and body
+	defer func() { g.noYield-- }()
 	var name *JSNode
 	if !isExpr {
 		name = g.declare("class")
@@ -1156,6 +1185,7 @@ func (g *jsGen) stmt(depth int, top bool) *JSNode {
 				n.set("gen")
 			}
 			name := g.declare("function")
+			g.funcName = name.S
 			p, b := g.function("func", async, generator, false)
 			n.Kids = []*JSNode{name, p, b}
 			return n
